@@ -9,6 +9,7 @@ mod rng;
 mod sched;
 mod shape;
 mod spec;
+mod typeprobe;
 mod world;
 
 use serde::{Deserialize, Serialize};
@@ -118,6 +119,18 @@ fn coverage_keys(scn: &Scenario, cov: &mut BTreeMap<String, u64>) {
 fn run_batch(prop: &str, seed: u64, start: u64, count: u64, replay_dir: &str, progress: Option<&str>, max_viol: usize) -> BatchOut {
     let mut out = BatchOut { prop: prop.to_string(), seed, start, count, ..Default::default() };
     let mut fps: HashSet<u64> = HashSet::new();
+    if prop == "C07" && start == 0 {
+        for (ty, got, exp) in typeprobe::owned_lockable_verdicts() {
+            *out.coverage.entry("static_ownedlockable_verdicts".into()).or_insert(0) += 1;
+            if got != exp {
+                let path = format!("{}/C07-static-{}.replay.json", replay_dir, ty.bytes().fold(0u64, |h, b| h.wrapping_mul(131).wrapping_add(b as u64)));
+                let _ = std::fs::create_dir_all(replay_dir);
+                let detail = format!("the compiler {} `{}` as OwnedLockable (input of the constructors that skip the duplicate check), expected it to be {}", if got { "accepts" } else { "rejects" }, ty, if exp { "accepted" } else { "rejected" });
+                std::fs::write(&path, serde_json::json!({"static_probe": true, "property": "C07", "type": ty, "got": got, "expected": exp, "detail": detail}).to_string()).expect("write replay");
+                out.violations.push(Viol { property: "C07".into(), clause: "StaticOwnedLockable".into(), run_seed: 0, index: 0, detail, replay: path });
+            }
+        }
+    }
     let mut pf = progress.map(|p| std::fs::OpenOptions::new().create(true).write(true).truncate(true).open(p).expect("progress file"));
     for idx in start..start + count {
         let run_seed = rng::derive(seed, tag_of(prop), idx);
@@ -196,9 +209,9 @@ fn process_run(prop: &str, seed: u64, idx: u64, variant: u64, run_seed: u64, scn
         // the harness cleans up after the first event and only that one is judged
         let first = r.out.events.first();
         let mine = if scn.cfg.faults.raw_faults() {
-            first.filter(|e| oracle::property_of(e.clause, &scn) == prop)
+            first.filter(|e| oracle::properties_of(e, &scn).contains(&prop))
         } else {
-            r.out.events.iter().find(|e| oracle::property_of(e.clause, &scn) == prop)
+            r.out.events.iter().find(|e| oracle::properties_of(e, &scn).contains(&prop))
         };
         if let Some(ev) = first {
             let p = oracle::property_of(ev.clause, &scn);
@@ -207,7 +220,7 @@ fn process_run(prop: &str, seed: u64, idx: u64, variant: u64, run_seed: u64, scn
                 if out.harness_errors.len() < 10 {
                     out.harness_errors.push(format!("run {} seed {}: {}", idx, run_seed, ev.detail));
                 }
-            } else if p != prop {
+            } else if !oracle::properties_of(ev, &scn).contains(&prop) {
                 *out.other_property_events.entry(format!("{}:{:?}", p, ev.clause)).or_insert(0) += 1;
             }
         }
@@ -261,6 +274,19 @@ fn main() {
         }
         Some("replay") => {
             let path = args.get(2).expect("replay file");
+            let raw: serde_json::Value = serde_json::from_str(&std::fs::read_to_string(path).expect("read replay")).expect("parse replay");
+            if raw.get("static_probe").is_some() {
+                let ty = raw["type"].as_str().unwrap_or("");
+                for (t, got, exp) in typeprobe::owned_lockable_verdicts() {
+                    if t == ty && got != exp {
+                        println!("static probe: `{}` OwnedLockable = {}, expected {}", t, got, exp);
+                        println!("VIOLATION property=C07 replay={}", path);
+                        std::process::exit(1);
+                    }
+                }
+                println!("static probe verdict for `{}` is as expected", ty);
+                std::process::exit(0);
+            }
             let rf: ReplayFile = serde_json::from_str(&std::fs::read_to_string(path).expect("read replay")).expect("parse replay");
             let mut scn = rf.scenario.clone();
             scn.cfg.record_log = true;
@@ -276,13 +302,13 @@ fn main() {
                     println!("  event step {} T{} {:?}: {}", e.step, e.tid, e.clause, e.detail);
                 }
             }
-            let want = r.out.events.iter().find(|e| oracle::property_of(e.clause, &scn) == rf.property && format!("{:?}", e.clause) == rf.clause);
+            let want = r.out.events.iter().find(|e| oracle::properties_of(e, &scn).contains(&rf.property.as_str()) && format!("{:?}", e.clause) == rf.clause);
             match want.or(r.out.events.first()) {
                 Some(ev) => {
-                    let p = oracle::property_of(ev.clause, &rf.scenario);
-                    println!("replayed: property={} clause={:?} step={} thread={} detail={}", p, ev.clause, ev.step, ev.tid, ev.detail);
-                    if p == rf.property && format!("{:?}", ev.clause) == rf.clause {
-                        println!("VIOLATION property={} replay={}", p, path);
+                    let ps = oracle::properties_of(ev, &rf.scenario);
+                    println!("replayed: properties={:?} clause={:?} step={} thread={} detail={}", ps, ev.clause, ev.step, ev.tid, ev.detail);
+                    if ps.contains(&rf.property.as_str()) && format!("{:?}", ev.clause) == rf.clause {
+                        println!("VIOLATION property={} replay={}", rf.property, path);
                         std::process::exit(1);
                     }
                     println!("replay diverged: expected {} {}", rf.property, rf.clause);
